@@ -272,6 +272,7 @@ def monitor_case(ops, obs, which):
     live = {}      # handle -> (off, cap, boff, bcap, owned, kind)
     dead = []      # detached extents that stay reserved: (off, cap, boff, bcap)
     clones = 0
+    held = set()   # owned handles detached by `hold` and still alive: each keeps an arena value
     prev = o0
     rewound = False
     bufs = {}      # byte-buffer handle -> [off, cap, len]
@@ -367,7 +368,7 @@ def monitor_case(ops, obs, which):
                 if ent[1] > 0: dead.append(ent[:4])
             if fstate["mode"] == "copy":
                 dead[:] = fstate.get("dead_at_open", [])
-            live.clear(); bufs.clear(); clones = 0
+            live.clear(); bufs.clear(); clones = 0; held.clear()
             if o.get("fh") == "none":   # remove_on_drop: the file is gone, a later open starts afresh
                 fstate["before_close"] = None; dead.clear()
         if op in ("delete_file", "random_file") and r == "ok":
@@ -609,8 +610,14 @@ def monitor_case(ops, obs, which):
                         req = int(t[3]) + int(t[2]) - 1
                     if req < U32 and max(s[1] for s in pfl) >= req and req > 0:
                         V("C10", "policy-fail", f"request {req} refused although segment {max(pfl, key=lambda s: s[1])} fits", i)
-        elif op in ("drop", "detach", "dealloc"):
+        elif op in ("drop", "detach", "dealloc", "hold"):
             h = int(t[1])
+            if op == "drop" and h not in live and r == "ok":
+                held.discard(h)
+            if op == "hold":
+                op = "detach"       # detached now, dropped later: the later `drop` finds it gone from `live` and expects nothing
+                if r == "ok" and h in live and live[h][4]:
+                    held.add(h)
             if h in live:
                 ent = live.pop(h)
                 if op == "detach" and ent[1] > 0:
@@ -817,6 +824,8 @@ def monitor_case(ops, obs, which):
             n_ = int(t[1])
             if cp != max(n_, pal) or (al, di, o.get("fl"), o.get("ms"), o.get("ma")) != (pal, pdi, prev.get("fl"), prev.get("ms"), prev.get("ma")):
                 V("C18", "truncate", f"truncate {n_}: cp={cp} (expected {max(n_, pal)}), al/di/fl/ms/ma {(al, di, o.get('fl'), o.get('ms'), o.get('ma'))} vs before {(pal, pdi, prev.get('fl'), prev.get('ms'), prev.get('ma'))}", i)
+        if op == "truncate" and r.startswith("io:") and not (fstate.get("ro_state") and not fstate["closed"]):
+            V("C18", "truncate-refused", f"{ops[i].strip()} -> {r} on a writable arena (refs {o.get('rf')}): the capacity stays {cp}", i)
         if op == "truncate" and r.startswith("io:") and (cp, al, di, o.get("fl"), o.get("mem")) != (int(prev["cp"]), pal, pdi, prev.get("fl"), prev.get("mem")):
             V("C18", "failed-truncate-changes", f"refused truncate changed the arena", i)
         # ---- C13 drop counter
@@ -865,7 +874,7 @@ def monitor_case(ops, obs, which):
         if "rf" in o:
             exp = 1 + clones + sum(1 for e in live.values() if e[4] and (e[3] > 0 or e[4] is True and e[1] == 0 and e[3] == 0 and False))
             # owned non-null byte handles and every owned typed handle hold a clone
-            exp = 1 + clones + sum(1 for hh, e in live.items() if e[4])
+            exp = 1 + clones + sum(1 for hh, e in live.items() if e[4]) + len(held)
             if int(o["rf"]) != exp:
                 V("C13", "refs", f"refs() {o['rf']} expected {exp}", i)
         if op == "checksum" and r == "ok" and o.get("val") != o.get("ref"):
